@@ -1,2 +1,34 @@
-(* C13 -- theorem statements are being added; see DESIGN.md. *)
-From HS Require Import Lib.Base.
+(* C13 -- serve() is total on untrusted request input. *)
+From Coq Require Import String.
+From HS Require Import Lib.Base Lib.Bytes Lib.Dec Model.Range Model.Body Model.Serve Proofs.BodyP Proofs.BodyRun Proofs.ServeP.
+
+(* For every method, every combination of header values (arbitrary byte strings; the request
+   record holds the first value of each name, as HeaderMap::get does), every entity of length
+   < 2^64 with any ETag / modification time / headers, and any date parser and printer: serve
+   returns a response (no panic site of the model is reachable: u64 overflow and underflow,
+   slice indexing, debug assertions), its status is one of the eight, and its body satisfies the
+   invariant under which draining is total. *)
+Theorem c13_serve_total : forall fmt_date parse_date now ent req streams, e_len ent < U64 ->
+  exists r, serve_model fmt_date parse_date now ent req = Ok r /\ In (status r) STATUSES /\
+            BInv (fst (body_init streams (rplan r))).
+Proof. exact serve_total. Qed.
+
+(* Draining never panics: any number of polls, any behaviour of the entity's streams. *)
+Theorem c13_drain_total : forall n streams b, BInv b -> exists rs bf, run n streams b = Ok (rs, bf) /\ BInv bf.
+Proof. exact run_total. Qed.
+
+(* Any other method: 405, Allow names GET and HEAD, constant text, no entity data or metadata. *)
+Theorem c13_other_methods_405 : forall fmt_date parse_date now ent req, r_meth req <> GET -> r_meth req <> HEAD ->
+  serve_model fmt_date parse_date now ent req
+  = Ok {| status := 405; hdrs := [(H_ALLOW, bs "get, head")]; rplan := PlOnce (Some BODY_405) |}.
+Proof. exact serve_405. Qed.
+
+Example c13_statuses : STATUSES = [200; 206; 304; 400; 405; 412; 413; 416].
+Proof. reflexivity. Qed.
+Example c13_instance :    (* the header that panicked the pinned tree *)
+  range_parse (Some (bs "bytes=0-18446744073709551615")) 10 = RSat [(0, 10)].
+Proof. vm_compute. reflexivity. Qed.
+
+Print Assumptions c13_serve_total.
+Print Assumptions c13_drain_total.
+Print Assumptions c13_other_methods_405.
